@@ -5,8 +5,10 @@ pub mod c02;
 pub mod c04;
 pub mod c05;
 pub mod c06;
+pub mod c07;
 pub mod c10;
 pub mod c11;
+pub mod c12;
 pub mod c13;
 pub mod c14;
 pub mod c15;
@@ -21,8 +23,10 @@ pub fn get(id: &str, tier: Tier, seed: u64) -> Option<Prop> {
         "C04" => c04::prop(tier, seed),
         "C05" => c05::prop(tier, seed),
         "C06" => c06::prop(tier, seed),
+        "C07" => c07::prop(tier, seed),
         "C10" => c10::prop(tier, seed),
         "C11" => c11::prop(tier, seed),
+        "C12" => c12::prop(tier, seed),
         "C13" => c13::prop(tier, seed),
         "C14" => c14::prop(tier, seed),
         "C15" => c15::prop(tier, seed),
